@@ -294,6 +294,11 @@ func (bs *BinarySpray) NotifyNewBundle(bp BundleDescriptor) {
 			remainingCopies: bs.l,
 		}
 
+		// A bundle without a spray block may still have been received from another node; never send it back.
+		if pnBlock, err := bp.MustBundle().ExtensionBlock(bpv7.ExtBlockTypePreviousNodeBlock); err == nil {
+			metadata.sent = append(metadata.sent, pnBlock.Value.(*bpv7.PreviousNodeBlock).Endpoint())
+		}
+
 		bs.dataMutex.Lock()
 		bs.bundleData[bp.Id] = metadata
 		bs.dataMutex.Unlock()
